@@ -619,6 +619,11 @@ func validateNumberRange(fv float64, nr *numberRange) error {
 		return nil
 	}
 
+	// NaN compares false with everything, it's inside no range.
+	if math.IsNaN(fv) {
+		return errNumberRange
+	}
+
 	if (nr.leftInclude && fv < nr.left) || (!nr.leftInclude && fv <= nr.left) {
 		return errNumberRange
 	}
